@@ -184,7 +184,7 @@ def conn_closed(c):
         return 'closed' in str(e).lower() or type(e).__name__ == 'ConnectionException'
 
 
-def run_once(case, workdir, fault_at=None, env=None, guard_s=60):
+def run_once(case, workdir, fault_at=None, env=None, guard_s=600):
     """One real run() of `case` with an optional injected fault at event index `fault_at` and optional extra
     environment variables.  Returns the observation dict (events, outcome, leftovers, globals)."""
     g = _ENG
